@@ -5,7 +5,7 @@ import re
 from concurrent.futures import ThreadPoolExecutor
 import vcheck as V
 
-OPK = {1: "Process", 2: "Reopen", 3: "ExtRename", 4: "Pause", 5: "RemoveDirFromOutside", 6: "RemoveActiveFileFromOutside", 7: "DirectoryEventOrder"}
+OPK = {1: "Process", 2: "Reopen", 3: "ExtRename", 4: "Pause", 5: "RemoveDirFromOutside", 6: "RemoveActiveFileFromOutside", 7: "DirectoryEventOrder", 8: "AppendFromOutside"}
 
 # which mismatch kinds speak about which property (see Run_FileSink.kind)
 # C08 speaks about the acknowledged events being in the files, whole, once, in order, minus a prefix removed by retention:
